@@ -63,6 +63,35 @@ theorem run_spec (H : Bytes → UInt32) (ops : List DOp) (d : Dict) (hd : DInv H
     · rw [h2, i2, h3]
     · rw [i3, h3]
 
+theorem stepF_spec (H : Bytes → UInt32) (d : Dict) (hd : DInv H d) (o : DOp) (hw : OpWf (refs d) o) :
+    DInv H (d.stepF H o).2 ∧ (d.stepF H o).1 = (specStep (refs d) o).1 ∧ refs (d.stepF H o).2 = (specStep (refs d) o).2 := by
+  cases o with
+  | ins v len zc alias =>
+    obtain ⟨h1, h2, h3⟩ := insertFixed_spec H d hd v len zc alias hw.1 hw.2.1
+    refine ⟨h1, h2, ?_⟩
+    funext s
+    simp only [Dict.stepF, specStep, SMap.upd]
+    rw [h3 s]
+    split
+    · rename_i hs; rw [hs]
+    · rfl
+  | dup v alias => exact step_spec H d hd (.dup v alias) hw trivial
+  | rem v => exact step_spec H d hd (.rem v) hw trivial
+
+theorem runF_spec (H : Bytes → UInt32) (ops : List DOp) (d : Dict) (hd : DInv H d) (hw : AllOps OpWf (refs d) ops) :
+    DInv H (d.runF H ops).2 ∧ (d.runF H ops).1 = (specRun (refs d) ops).1 ∧ refs (d.runF H ops).2 = (specRun (refs d) ops).2 := by
+  induction ops generalizing d with
+  | nil => exact ⟨hd, rfl, rfl⟩
+  | cons o os ih =>
+    obtain ⟨h1, h2, h3⟩ := stepF_spec H d hd o hw.1
+    have hw' := hw.2
+    rw [← h3] at hw'
+    obtain ⟨i1, i2, i3⟩ := ih (d.stepF H o).2 h1 hw'
+    simp only [Dict.runF, specRun]
+    refine ⟨i1, ?_, ?_⟩
+    · rw [h2, i2, h3]
+    · rw [i3, h3]
+
 theorem init_inv (H : Bytes → UInt32) (n : Nat) : DInv H (Dict.init n) := by
   unfold Dict.init Ht2.new
   generalize hN : (if n < Generated.LYHT_MIN_SIZE then Generated.LYHT_MIN_SIZE else n) = N
